@@ -771,6 +771,51 @@ Section FootProofs.
       apply Nat.leb_le in Hle. lia.
   Qed.
 
+  Lemma index_of_lt x l i : index_of x l = Some i -> (i < length l)%nat.
+  Proof.
+    revert i. induction l as [|y l IH]; simpl; intros i H; [discriminate|].
+    destruct (str_eqb x y).
+    - inversion H. lia.
+    - destruct (index_of x l) as [k|]; simpl in H; [|discriminate].
+      inversion H. specialize (IH k eq_refl). lia.
+  Qed.
+
+  (* definitions that are referenced are numbered before those nobody references
+     (SortFootnotes gives the latter the key 999: up to 999 auto-numbered references) *)
+  Lemma referenced_first ft d r :
+    run true ft d = Ok r ->
+    (length (auto_ref_labels r) <= 999)%nat ->
+    forall fa fb ka kb i,
+      In fa (x_foots r) -> In fb (x_foots r) ->
+      fo_num fa = Some ka -> fo_num fb = Some kb ->
+      index_of (lbl fa) (auto_ref_labels r) = Some i ->
+      index_of (lbl fb) (auto_ref_labels r) = None ->
+      ka < kb.
+  Proof.
+    intro H. apply run_facts in H as [g0 [g1 [ly [autos [F _]]]]].
+    intros Hlen fa fb ka kb i Ha Hb Hka Hkb Hi Hj.
+    rewrite (auto_ref_labels_eq _ _ _ _ _ _ _ F) in Hi, Hj, Hlen.
+    destruct (number_footnotes_spec _ _ _ _ (fa_num _ _ _ _ _ _ _ F)) as [A [B C]].
+    assert (Hin : forall f k, In f (x_foots r) -> fo_num f = Some k -> In f autos /\ numv f = k).
+    { intros f k Hf Hk. rewrite (fa_foots _ _ _ _ _ _ _ F) in Hf. apply in_app_or in Hf as [Hf|Hf].
+      - unfold resolve_footnotes in Hf. apply in_map_iff in Hf as [x [<- _]]. discriminate.
+      - split; auto. unfold numv. rewrite Hk. reflexivity. }
+    destruct (Hin fa ka Ha Hka) as [Ha' Hna]. destruct (Hin fb kb Hb Hkb) as [Hb' Hnb].
+    assert (Hne : fa <> fb) by (intro; subst fb; congruence).
+    assert (Hg1 : g_autofootnotes g1
+                  = isort (sort_key (map r_label (g_autofootnote_refs g0))) Nat.leb (g_autofootnotes g0)).
+    { rewrite (fa_g1 _ _ _ _ _ _ _ F). reflexivity. }
+    apply index_of_lt in Hi as Hil.
+    destruct (before_or fa fb autos Ha' Hb' Hne) as [Hbf|Hbf].
+    - pose proof (sorted_before _ _ _ _ C Hbf) as Hlt. simpl in Hlt. lia.
+    - exfalso. apply (before_map fo_fn) in Hbf. rewrite A, Hg1 in Hbf.
+      pose proof (isort_sorted (sort_key (map r_label (g_autofootnote_refs g0))) Nat.leb
+                               nat_leb_total nat_leb_trans (g_autofootnotes g0)) as Hs.
+      pose proof (sorted_before _ _ _ _ Hs Hbf) as Hle. unfold kle, sort_key in Hle.
+      fold (lbl fa) in Hle. fold (lbl fb) in Hle. rewrite Hi, Hj in Hle.
+      apply Nat.leb_le in Hle. lia.
+  Qed.
+
   (* ---------------------------------------------------------------- T4: collecting / staying put *)
   Lemma ckey_leb_total a b : ckey_leb a b = true \/ ckey_leb b a = true.
   Proof.
